@@ -20,26 +20,24 @@ def eval_traces(work, outs, corr_mod, check_fn, tag):
     imports = "From KP Require Import model.Base model.Trace model.M5full corr.%s.\nFrom KP Require model.M5time." % corr_mod
 
     def ev(i):
-        acc = "first_reject step init tr 0"
-        if TIME_VIEW:
-            acc = ("match first_reject step init tr 0 with Some k => Some k | None => "
-                   "match first_reject M5time.step M5time.init tr 0 with Some k => Some (k + 1000000)%nat | None => None end end")
-        body = ("Definition tr := %s.\nDefinition R := Eval vm_compute in (%s, %s tr).\n"
-                % (m5.trace_term(outs[i]["events"]), acc, check_fn))
+        tv = "first_reject M5time.step M5time.init tr 0" if TIME_VIEW else "(None : option nat)"
+        body = ("Definition tr := %s.\nDefinition R := Eval vm_compute in (first_reject step init tr 0, %s, %s tr).\n"
+                % (m5.trace_term(outs[i]["events"]), tv, check_fn))
         return i, coq_eval(work, "%s_%d" % (tag, i), imports, body, "R")
     res = [None] * len(outs)
     with ThreadPoolExecutor(max_workers=16) as ex:
         for i, txt in ex.map(ev, range(len(outs))):
             t = txt.strip()
-            m = re.fullmatch(r"\((None|Some (\d+)(?:%nat)?), (\[.*\]|nil)\)", t, re.S)
+            m = re.fullmatch(r"\((None|Some (\d+)(?:%nat)?), (None|Some (\d+)(?:%nat)?), (\[.*\]|nil)\)", t, re.S)
             if not m:
                 raise RuntimeError("unexpected result term: " + t[:300])
             rej = None if m.group(1) == "None" else int(m.group(2))
-            if rej is not None and rej >= 1000000:
-                rej -= 1000000
+            rej_t = None if m.group(3) == "None" else int(m.group(4))
+            if rej is None and rej_t is not None:
+                rej = rej_t
                 LAST_TIME_REJECTS.append((tag, i, rej))
             fails = []
-            lst = m.group(3)
+            lst = m.group(5)
             if lst not in ("[]", "nil"):
                 items = re.findall(r"\((\d+)(?:%nat)?, (\d+)(?:%N)?, (\d+)(?:%nat)?, (true|false)\)", lst)
                 if len(items) != lst.count("true") + lst.count("false"):
